@@ -171,14 +171,29 @@ def g5(rep):
                 a = strip(c["c"][1])
                 if a is not None and any(y["k"] == "DeclRefExpr" and y.get("dk") == "var" and y.get("g") for y in walk(a)) \
                         and a["k"] != "DeclRefExpr":
-                    sites.append((c, common.render(a)))
+                    sites.append((c, common.render(a), c))
+                elif a is not None and a["k"] == "DeclRefExpr" and a.get("dk") == "var" and not a.get("g"):
+                    # a local holding the value of a global-rooted lvalue: `t = G...; G... = 0; free(t)`
+                    for y in walk(fn["body"]):
+                        src = None
+                        if y["k"] == "BinaryOperator" and y["op"] == "=" and strip(y["c"][0]) is not None and strip(y["c"][0]).get("did") == a.get("did"):
+                            src = strip(y["c"][1])
+                        for d in (y.get("decls", []) if y["k"] == "DeclStmt" else []):
+                            if d.get("did") == a.get("did") and d.get("init") is not None:
+                                src = strip(d["init"])
+                        if src is not None and src["k"] != "DeclRefExpr" and src["k"] != "CallExpr" and any(
+                                z["k"] == "DeclRefExpr" and z.get("dk") == "var" and z.get("g") for z in walk(src)):
+                            sites.append((c, common.render(src), y))
         if not sites:
             continue
         cfg = common.CFG(fn)
-        for c, txt in sites:
+        for c, txt, start in sites:
             n += 1
             key = "freed-global-ref-reset:%s:%s" % (name, txt)
-            ev = cfg.events(lambda nd, c=c: nd["id"] == c["id"])
+            ev = cfg.events(lambda nd, c=start: nd["id"] == c["id"])
+            if not ev and start is not c:
+                # the load sits in a declaration: start from the function entry
+                ev = [(cfg.entry, -1, None)]
             if not ev:
                 raise AnalysisBroken("%s: call at line %d not found in the CFG" % (name, c["l"]))
             b, j, _ = ev[0]
